@@ -263,13 +263,13 @@ EXTRA_TEXT4 = {
     "C03": " Fourth session: S03 gives Z values to some or all traces of 16% of the maps (the shared z-coordinate gate in front of snapping and noding).",
     "C05": " Fourth session: C05_generated_tables_from_output_branches (in the regenerated branches_and_nodes the node table and the branch labels are computed from exactly the returned branches, after the 1.01 x snap filter; item BranchesAndNodes is tied to C05) and stream S05-extraction (handshake and end-node incidence on the tables branches_and_nodes RETURNS, maps with sliver branches).",
     "C07": " Fourth session: stream S07-network runs the same exact judge on Network(truncate_traces=True) -- z-coordinate removal, defensive copies, crop with the column data, renumbering -- for frames with Z values and every index kind, twice on the same caller's frame. The whole crop_to_target_areas is regenerated (item CropPipeline): C07_generated_crop / C07_generated_crop_expected prove that it returns, up to order, exactly one row per long single-part line piece of what the clip leaves of each input row (pieces inside a GeometryCollection included) with that row's data -- Crop.expected -- so the older C07 theorems speak about regenerated code; stream S07-generated-crop runs the compiled regenerated function against the real one with gpd.clip scripted per row.",
-    "C08": " Fourth session: stream S08-network (end to end, HISTORIES): 2-3 Network(...) calls on one caller's frame (overview without truncation / target area, four orders); per Network the boundary-intersection counts, weights 1/2/0, plain and weighted lengths, E = sum of end counts and Network.parameters = Spec.NetIn.param (Lean) on that network's own counts, lengths and area.",
+    "C08": " Fourth session: stream S08-network (end to end, HISTORIES): 2-3 Network(...) calls on one caller's frame (overview without truncation / target area, four orders); per Network the boundary-intersection counts, weights 1/2/0, plain and weighted lengths, E = sum of end counts and Network.parameters = Spec.NetIn.param (Lean) on that network's own counts, lengths and area. The column cache of LineData is regenerated from its checked shape (item LineDataCache): C08_linedata_weights / C08_linedata_lengths (no cache columns in the frame: weights 1/2/0 of the boundary counts, weighted length = own length x weight), stream S08-generated-linedata runs the compiled cache against the real class; the defensive copy of Network.__post_init__ is an explicit parameter of the regenerated function and C08_network_values_from_a_copy proves that everything a Network keeps is a function of that copy.",
     "C10": " Fourth session: S10-stacking also plants traces at 0.95 x the stacking buffer (the outer edge of the window, where the candidate search must still reach).",
-    "C11": " Fourth session: C11_intersection_filter_order_free (the regenerated determine_valid_intersection_points_no_vnode returns the same points for every permutation of the candidate rows and every digitising direction; items IntersectionFilter / GeneralNodes tied to C11); S11-validation-orbits has gadgets of one fracture digitised in three / four pieces (V-nodes at both ends of a trace).",
+    "C11": " Fourth session: C11_intersection_filter_order_free (the regenerated determine_valid_intersection_points_no_vnode returns the same points for every permutation of the candidate rows and every digitising direction; items IntersectionFilter / GeneralNodes tied to C11); S11-validation-orbits has gadgets of one fracture digitised in three / four pieces (V-nodes at both ends of a trace). C11_F12_cache_named_columns_win states the known finding F12 on the regenerated LineData cache.",
     "C12": " Fourth session: S12-relations assigns the traces to the sets INDEPENDENTLY of the code (closed ranges incl. wrap-around; azimuths exactly on range ends) instead of reading the assignment from the Network.",
     "C13": " Fourth session: S13's pool has a tenth frame (multi-part lines that take part in snap / stacking / crosscut defects of OTHER rows once merged: candidate selection must follow the fixed frame) and, for every frame, the history validate -> validate the output again -> re-run the first object. Item ErrorColumn (the two stale column names dropped at the head of run_validation) is tied to C13 as well.",
     "C14": " Fourth session: stream S14-adjacent-areas (the box target area given as 2-4 adjacent area rows sharing edges: all four routes vs the exact arrangement of the map in the union; a trace crossing an inner edge stays one piece).",
-    "C15": " Fourth session: stream S15-network (HISTORIES): 2-3 Networks with different azimuth set definitions (and areas) on one caller's frame; trace_azimuth_array, trace_azimuth_set_array, set counts and per-set length arrays vs Spec.azimuth / Spec.detSet on each network's own traces.",
+    "C15": " Fourth session: stream S15-network (HISTORIES): 2-3 Networks with different azimuth set definitions (and areas) on one caller's frame; trace_azimuth_array, trace_azimuth_set_array, set counts and per-set length arrays vs Spec.azimuth / Spec.detSet on each network's own traces. C15_linedata_sets / C15_linedata_idempotent (regenerated LineData cache) and C15_network_sets_from_a_copy (regenerated Network.__post_init__).",
     "C18": " Fourth session: stream S18-touch (integer-lattice maps, cell width 2, EVERY cell's P21 vs the exact clip of the network's traces to that cell's sample circle; one trace is planted to touch a circle's easternmost vertex in a point and run through the circle).",
     "C19": " Fourth session: item ErrorColumn regenerates ERROR_COLUMN, ERROR_COLUMN_TRUNC and the stale-column loop of run_validation; C19_error_column_shapefile_name: the truncated name is the first 10 characters of the column name for every name, and both names are dropped before a re-validation. S19-tracevalidate validates every Shapefile output (and half of the others) AGAIN with the other validator selection: no extra column, error text = library result.",
     "C20": " Fourth session: gather_subsample_descriptions is regenerated; C20_generated_gather (exactly the results that are not None and are dicts survive, in order) and stream S20-gather (failed samples anywhere in the result list: real function vs compiled regenerated function vs the statement, then grouping).",
